@@ -40,7 +40,7 @@ func init() {
 				js = append(js, J("socket", "VX_C05_RawStream", a...))
 			}
 			js = append(js, J("socket", "VX_C05_RawSizeIndependent", 1, 2), J("socket", "VX_C05_RawSizeIndependent", 3, 0))
-			js = append(js, J("socket", "VX_C05_ReusedMessage", 1), J("socket", "VX_C20_Args", 2, -1, 3))
+			js = append(js, J("socket", "VX_C05_ReusedMessage", 1), J("socket", "VX_C20_Args", 2, -1, 3), J("proto/jsonproto", "VX_C05_JSONRetained", 1))
 			// thrift binary protocol (apache thrift THeader transport/protocol interpreted)
 			for g := 0; g <= 3; g++ {
 				js = append(js, J("proto/thriftproto", "VX_C05_ThriftBinary", g, 2))
@@ -97,6 +97,7 @@ func init() {
 				js = append(js, J(".", "VX_C06_PoolAfterOversize", n+1))
 			}
 			js = append(js, J("proto/thriftproto", "VX_C06_ThriftOversize", 8192, 12000))
+			js = append(js, J(".", "VX_C06_SessionFieldBytes", 3, 1), J(".", "VX_C03_Frame", 9, 0, 0, 0, 0, 0, 1, 0))
 			js = append(js, J(".", "VX_C06_SessionFieldBytes", 0, 3), J(".", "VX_C06_SessionFieldBytes", 1, 2), J(".", "VX_C06_SessionFieldBytes", 2, 2))
 			if tier == "thorough" {
 				js = append(js, J(".", "VX_C06_SessionFieldBytes", 1, 3), J(".", "VX_C06_SessionFieldBytes", 2, 3))
@@ -119,6 +120,7 @@ func init() {
 			js := []job{J("socket", "VX_C12_PipeInverts", 0, 2), J("socket", "VX_C12_PipeInverts", 1, 2), J("socket", "VX_C12_PipeInverts", 2, 2),
 				J("socket", "VX_C12_PipeOnWire", 1, 1), J("socket", "VX_C12_PipeOnWire", 2, 1), J("socket", "VX_C12_Unregistered"), J("socket", "VX_C12_TooLong"),
 				J("socket", "VX_C12_PipeLengthOnWire", 255, 1), J("socket", "VX_C12_PipeLengthOnWire", 254, 1), J("socket", "VX_C12_PipeLengthOnWire", 128, 2), J("socket", "VX_C12_PipeLengthOnWire", 127, 1),
+				J("xfer/md5", "VX_C12_MD5Pipe", 1, 1), J("xfer/md5", "VX_C12_MD5Pipe", 2, 0), J("xfer/md5", "VX_C12_MD5Pipe", 2, 1),
 				// a reply (also an error reply) goes through the caller's pipe: [C12]-tagged assertion of the frame harness
 				J(".", "VX_C03_Frame", 1, 0, 0, 0, 0, 0, 1, 1), J(".", "VX_C03_Frame", 1, 1, 0, 0, 0, 0, 1, 1), J(".", "VX_C03_Frame", 1, 2, 0, 0, 0, 0, 0, 1), J(".", "VX_C03_Frame", 1, 0, 0, 1, 0, 0, 1, 1), J(".", "VX_C03_Frame", 1, 0, 0, 2, 0, 0, 1, 1), J(".", "VX_C03_Frame", 1, 0, 0, 0, 2, 0, 1, 1)}
 			for _, a := range [][]int{{2, 0}, {2, 1}, {1, 2}, {2, 3}, {0, 2}, {0, 0}} {
@@ -145,6 +147,7 @@ func init() {
 				J(".", "VX_C20_ContextReuse", 0, 1), J(".", "VX_C20_ContextReuse", 1, 1), J(".", "VX_C20_ContextReuse", 2, 0),
 				J(".", "VX_C20_PreSessionPools", 0, 0), J(".", "VX_C20_PreSessionPools", 0, 1), J(".", "VX_C20_PreSessionPools", 1, 0), J(".", "VX_C20_PreSessionPools", 1, 1), J(".", "VX_C20_PreSessionPools", 2, 0), J(".", "VX_C20_PreSessionPools", 2, 1),
 				J("socket", "VX_C20_Socket", 2, 1), J("socket", "VX_C20_Socket", 1, 0),
+				J(".", "VX_C20_ContextStatus", 0, 2), J(".", "VX_C20_ContextStatus", 1, 2), J(".", "VX_C20_ContextStatus", 2, 2), J(".", "VX_C20_ContextStatus", 3, 2),
 			}
 			if tier == "thorough" {
 				js = append(js, J("socket", "VX_C20_Message", 2, 1, 0, 2), J("socket", "VX_C20_Message", 2, 2, 3, 2), J("socket", "VX_C20_Args", 2, 1, 2), J("socket", "VX_C20_Args", 1, 2, 3), J("socket", "VX_C20_Args", 2, -1, 3), J("socket", "VX_C05_ReusedMessage", 2))
@@ -186,6 +189,8 @@ func init() {
 			for st := 0; st <= 4; st++ {
 				js = append(js, J(".", "VX_C03_HookPanic", st))
 			}
+			// vetoes of the reply-side hooks; panics whose value is a *Status
+			js = append(js, J(".", "VX_C03_Frame", 1, 0, 0, 0, 4, 0, 1, 0), J(".", "VX_C03_Frame", 1, 0, 0, 0, 5, 0, 1, 0), J(".", "VX_C03_Frame", 1, 0, 0, 5, 0, 0, 1, 0), J(".", "VX_C03_Frame", 1, 0, 0, 6, 0, 0, 1, 0))
 			if tier == "thorough" {
 				js = append(js, J(".", "VX_C03_TwoFrames", 2, 0))
 			}
@@ -220,6 +225,8 @@ func init() {
 		add(3, 1, 0, 1, 0, 0, 0)
 		js = append(js, J(".", "VX_C02_CloseThenLoss", 0), J(".", "VX_C02_CloseThenLoss", 1), J(".", "VX_C02_HandlerCallsBack"))
 		js = append(js, J(".", "VX_C02_FastReply", 0, 1), J(".", "VX_C02_FastReply", 1, 0))
+		js = append(js, J(".", "VX_C02_ReplyThenLoss", 0, 1, 0), J(".", "VX_C02_ReplyThenLoss", 0, 4, 0), J(".", "VX_C02_ReplyThenLoss", 1, 1, 0), J(".", "VX_C02_ReplyThenLoss", 0, 1, 1),
+			J(".", "VX_C14_DisconnectWhileLaunching", 0, 0), J(".", "VX_C14_DisconnectWhileLaunching", 1, 1), J(".", "VX_C14_DisconnectWhileLaunching", 0, 1))
 		for _, cut := range []int{1, 3, 4, 5, 9, 14, 18} {
 			add(1, 1, 0, 2, 0, cut, 0)
 		}
@@ -244,7 +251,8 @@ func init() {
 		id: "C08", dirs: []string{"."}, level: "other",
 		jobs: func(tier string) []job {
 			js := []job{J(".", "VX_C08_GracefulClose", 0, 1), J(".", "VX_C08_GracefulClose", 1, 1), J(".", "VX_C08_GracefulClose", 2, 1), J(".", "VX_C02_CloseThenLoss", 1), J(".", "VX_C02_CloseThenLoss", 0),
-				J(".", "VX_C08_CloseTwoPending", 0), J(".", "VX_C08_CloseTwoPending", 1)}
+				J(".", "VX_C08_CloseTwoPending", 0), J(".", "VX_C08_CloseTwoPending", 1),
+				J(".", "VX_C08_CloseHandlerNeedsTraffic", 0), J(".", "VX_C08_CloseHandlerNeedsTraffic", 1), J(".", "VX_C07_CloseWaitsThenLoss", 0)}
 			if tier == "thorough" {
 				js = append(js, J(".", "VX_C08_GracefulClose", 0, 3), J(".", "VX_C08_GracefulClose", 1, 3), J(".", "VX_C08_GracefulClose", 2, 0))
 			}
@@ -264,6 +272,7 @@ func init() {
 				J("socket", "VX_C20_Message", 1, 1, 3, 1),
 				J(".", "VX_C01_ConcurrentCalls", 1, 1),
 				J(".", "VX_C01_MetaAcrossRequests", 0, 1), J(".", "VX_C01_MetaAcrossRequests", 1, 1), J(".", "VX_C01_MetaAcrossRequests", 0, 1, 1), J(".", "VX_C01_MetaAcrossRequests", 1, 2, 1), J(".", "VX_C10_RealRoutes", 1),
+				J(".", "VX_C01_CtrlOverlap", 1, 1), J(".", "VX_C01_CtrlOverlap", 0, 1),
 			}
 			if tier == "thorough" {
 				js = append(js, J("socket", "VX_C01_BodyStableAcrossFrames", 3, 3, 0, 9), J(".", "VX_C02_Replies", 0, 0, 1, 2, 0, 0, 1), J(".", "VX_C01_ConcurrentCalls", 2, 1), J(".", "VX_C01_MetaAcrossRequests", 0, 4, 0), J(".", "VX_C01_MetaAcrossRequests", 1, 4, 1))
@@ -283,6 +292,7 @@ func init() {
 				js = append(js, J(".", "VX_C03_Frame", 1, 0, 0, oc, 0, 0, 1, 0))
 			}
 			js = append(js, J(".", "VX_C03_Frame", 1, 1, 0, 0, 0, 0, 1, 0), J(".", "VX_C03_Frame", 1, 2, 0, 0, 0, 0, 1, 0), J(".", "VX_C03_Frame", 1, 1, 1, 0, 0, 0, 1, 0), J(".", "VX_C03_Frame", 1, 0, 0, 0, 2, 0, 1, 0))
+			js = append(js, J(".", "VX_C03_Frame", 1, 0, 0, 5, 0, 0, 1, 0), J(".", "VX_C03_Frame", 1, 0, 0, 6, 0, 0, 1, 0), J(".", "VX_C03_Frame", 1, 0, 0, 0, 4, 0, 1, 0))
 			// wire link over the other protocols
 			js = append(js, J("proto/jsonproto", "VX_C05_JSONRoundTrip", 3, 1, 1), J("proto/jsonproto", "VX_C05_JSONRoundTrip", 3, 0, 1),
 				J("mixer/websocket/pbSubProto", "VX_C04_WSPbStatus"), J("mixer/websocket/jsonSubProto", "VX_C04_WSJsonStatus"),
@@ -338,7 +348,8 @@ func init() {
 		jobs: func(tier string) []job {
 			js := []job{J(".", "VX_C07_History", 1), J(".", "VX_C07_History", 2), J(".", "VX_C07_History", 3), J(".", "VX_C07_History", 4),
 				J(".", "VX_C07_AcceptHooks", 0, 0), J(".", "VX_C07_AcceptHooks", 1, 0), J(".", "VX_C07_AcceptHooks", 0, 1), J(".", "VX_C07_AcceptHooks", 1, 1),
-				J(".", "VX_C07_CloseRace", 1), J(".", "VX_C07_CloseRace", 2), J(".", "VX_C07_ModifySocket", 0), J(".", "VX_C07_ModifySocket", 1)}
+				J(".", "VX_C07_CloseRace", 1), J(".", "VX_C07_CloseRace", 2), J(".", "VX_C07_ModifySocket", 0), J(".", "VX_C07_ModifySocket", 1),
+				J(".", "VX_C07_DialHooks", 0), J(".", "VX_C07_DialHooks", 1), J(".", "VX_C07_DialHooks", 2), J(".", "VX_C07_CloseWaitsThenLoss", 0)}
 			if tier == "thorough" {
 				js = append(js, J(".", "VX_C07_History", 5))
 			}
@@ -364,7 +375,7 @@ func init() {
 			add(2, 0, 1, 1, 1, 0, 0, 1)
 			add(1, 1, 0, 0, 1, 1, 1, 1)
 			js = append(js, J(".", "VX_C09_ClientHooks", 0, 0), J(".", "VX_C09_ClientHooks", 0, 1), J(".", "VX_C09_ClientHooks", 1, 0), J(".", "VX_C09_ClientHooks", 1, 1))
-			js = append(js, J(".", "VX_C09_RedialRetry", 0), J(".", "VX_C09_RedialRetry", 1))
+			js = append(js, J(".", "VX_C09_RedialRetry", 0), J(".", "VX_C09_RedialRetry", 1), J(".", "VX_C09_ReplyDuringPostWrite"))
 			// veto statuses through the general frame harness (incl. code 405)
 			for vs := 1; vs <= 3; vs++ {
 				js = append(js, J(".", "VX_C03_Frame", 1, 0, 0, 0, vs, 0, 1, 0))
@@ -399,7 +410,7 @@ func init() {
 			for m := 0; m <= 3; m++ {
 				js = append(js, J(".", "VX_C10_Conflict", m))
 			}
-			js = append(js, J(".", "VX_C10_RealRoutes", 1), J(".", "VX_C10_SubRoutePush", 0), J(".", "VX_C10_SubRoutePush", 1))
+			js = append(js, J(".", "VX_C10_RealRoutes", 1), J(".", "VX_C10_SubRoutePush", 0), J(".", "VX_C10_SubRoutePush", 1), J(".", "VX_C10_UnknownAfterSession"))
 			if tier == "thorough" {
 				js = append(js, J(".", "VX_C10_MapperSymbolic", 4, 1), J(".", "VX_C10_MapperSymbolic", 5, 0), J(".", "VX_C10_MapperSymbolic", 6, 2))
 			}
@@ -424,6 +435,10 @@ func init() {
 			add(0, 0, 1, 1, 1) // the verifier names the session (SetID) before deciding
 			add(1, 0, 0, 0, 1)
 			add(4, 0, 0, 1, 1)
+			add(1, 0, 1, 1, 0, 1) // verifier that receives again after a failed receive
+			add(2, 0, 1, 0, 0, 1)
+			add(4, 0, 0, 1, 0, 1)
+			add(3, 4, 0, 1, 0, 1)
 			for _, n := range []int{1, 3, 4, 5, 6} {
 				add(3, n, 0, 1)
 			}
@@ -445,7 +460,7 @@ func init() {
 			js := []job{J("plugin/overloader", "VX_C18_ConnHistory", 1, 3, 0), J("plugin/overloader", "VX_C18_ConnHistory", 1, 3, 1), J("plugin/overloader", "VX_C18_ConnHistory", 2, 4, 0),
 				J("plugin/overloader", "VX_C18_ConnRace", 1), J("plugin/overloader", "VX_C18_ConnRace", 2),
 				J("plugin/overloader", "VX_C18_QPS", 2, 3), J("plugin/overloader", "VX_C18_QPS", 1, 1), J("plugin/overloader", "VX_C18_QPSSession", 1, 3, 0), J("plugin/overloader", "VX_C18_QPSSession", 2, 3, 1), J("plugin/overloader", "VX_C18_QPSRace", 1, 1, 1, 2), J("plugin/overloader", "VX_C18_QPSRace", 2, 2, 3, 2),
-				J("plugin/overloader", "VX_C18_QPSInvariant", 4)}
+				J("plugin/overloader", "VX_C18_QPSInvariant", 4), J("plugin/overloader", "VX_C18_SlotAfterCloseAndLoss", 1), J("plugin/overloader", "VX_C18_SlotAfterCloseAndLoss", 2)}
 			if tier == "thorough" {
 				js = append(js, J("plugin/overloader", "VX_C18_QPSInvariant", 7), J("plugin/overloader", "VX_C18_ConnHistory", 2, 5, 1), J("plugin/overloader", "VX_C18_ConnHistory", 1, 5, 1), J("plugin/overloader", "VX_C18_QPSRace", 3, 3, 4, 2))
 			}
@@ -458,7 +473,8 @@ func init() {
 	registerCheck(&checkSpec{
 		id: "C13", dirs: []string{"."}, level: "other",
 		jobs: func(tier string) []job {
-			js := []job{J(".", "VX_C13_Redial", 1, 0, 1), J(".", "VX_C13_Redial", 1, 1, 0), J(".", "VX_C13_Redial", 2, 0, 0), J(".", "VX_C13_Redial", 2, 1, 1), J(".", "VX_C13_Redial", 1, 2, 1), J(".", "VX_C13_Redial", 9, 0, 0)}
+			js := []job{J(".", "VX_C13_Redial", 1, 0, 1), J(".", "VX_C13_Redial", 1, 1, 0), J(".", "VX_C13_Redial", 2, 0, 0), J(".", "VX_C13_Redial", 2, 1, 1), J(".", "VX_C13_Redial", 1, 2, 1), J(".", "VX_C13_Redial", 9, 0, 0),
+				J(".", "VX_C13_LossWhileLaunching", 1, 1), J(".", "VX_C13_LossWhileLaunching", 1, 0), J(".", "VX_C13_LossWhileLaunching", 2, 1)}
 			if tier == "thorough" {
 				js = append(js, J(".", "VX_C13_Redial", 9, 0, 1), J(".", "VX_C13_Redial", 2, 0, 1), J(".", "VX_C13_Redial", 1, 0, 0))
 			}
@@ -480,6 +496,8 @@ func init() {
 			js = append(js, J("plugin/secure", "VX_C17_Call", 1, 0, 0, 1), J("plugin/secure", "VX_C17_Call", 0, 0, 0, 1), J("plugin/secure", "VX_C17_Call", 1, 1, 1, 0),
 				J("plugin/secure", "VX_C17_Push", 1, 1, 1), J("plugin/secure", "VX_C17_Push", 0, 1, 1), J("plugin/secure", "VX_C17_Push", 1, 0, 1),
 				J("plugin/secure", "VX_C17_PushRedial", 0, 1), J("plugin/secure", "VX_C17_PushRedial", 1, 1),
+				J("plugin/secure", "VX_C17_Call", 1, 0, 0, 1, 1), J("plugin/secure", "VX_C17_Call", 0, 1, 0, 1, 1), J("plugin/secure", "VX_C17_Call", 0, 1, 0, 1, 0), J("plugin/secure", "VX_C17_Call", 1, 1, 1, 1, 1),
+				J("plugin/secure", "VX_C17_Push", 1, 0, 1, 1), J("plugin/secure", "VX_C17_Push", 1, 1, 1, 1),
 				J("plugin/secure", "VX_C17_Sequence", 1, 1, 1), J("plugin/secure", "VX_C17_Sequence", 0, 1, 1), J("plugin/secure", "VX_C17_Sequence", 1, 0, 1), J("plugin/secure", "VX_C17_Sequence", 0, 0, 1))
 			if tier == "thorough" {
 				js = append(js, J("plugin/secure", "VX_C17_Call", 1, 0, 1, 3), J("plugin/secure", "VX_C17_Call", 1, 1, 0, 3), J("plugin/secure", "VX_C17_Push", 1, 1, 3), J("plugin/secure", "VX_C17_PushRedial", 0, 3))
@@ -528,7 +546,8 @@ func init() {
 				js = append(js, J(".", "VX_C14_Races", sc, 0))
 			}
 			js = append(js, J(".", "VX_C14_Races", 0, 1), J(".", "VX_C14_Races", 4, 1))
-			js = append(js, J(".", "VX_C14_DisconnectWhileLaunching", 0), J(".", "VX_C14_DisconnectWhileLaunching", 1))
+			js = append(js, J(".", "VX_C14_DisconnectWhileLaunching", 0), J(".", "VX_C14_DisconnectWhileLaunching", 1), J(".", "VX_C14_DisconnectWhileLaunching", 0, 1))
+			js = append(js, J(".", "VX_C14_Races", 7, 0), J(".", "VX_C14_Races", 8, 0), J(".", "VX_C14_Races", 7, 1), J(".", "VX_C14_Races", 8, 1))
 			if tier == "thorough" {
 				for sc := 1; sc <= 6; sc++ {
 					js = append(js, J(".", "VX_C14_Races", sc, 1))
